@@ -70,23 +70,6 @@ func NewSolarFromJulianDay(julianDay float64) *Solar {
 	d := int(julianDay + 0.5)
 	f := julianDay + 0.5 - float64(d)
 
-	if d >= 2299161 {
-		c := int((float64(d) - 1867216.25) / 36524.25)
-		d += 1 + c - c/4
-	}
-	d += 1524
-	year := int((float64(d) - 122.1) / 365.25)
-	d -= int(365.25 * float64(year))
-	month := int(float64(d) / 30.601)
-	d -= int(30.601 * float64(month))
-	day := d
-	if month > 13 {
-		month -= 13
-		year -= 4715
-	} else {
-		month -= 1
-		year -= 4716
-	}
 	f *= 24
 	hour := int(f)
 
@@ -107,8 +90,27 @@ func NewSolarFromJulianDay(julianDay float64) *Solar {
 		hour++
 	}
 	if hour > 23 {
+		// 进位到下一天：必须在拆分年月日之前处理，否则月末会得到不存在的日期
 		hour -= 24
-		day += 1
+		d += 1
+	}
+
+	if d >= 2299161 {
+		c := int((float64(d) - 1867216.25) / 36524.25)
+		d += 1 + c - c/4
+	}
+	d += 1524
+	year := int((float64(d) - 122.1) / 365.25)
+	d -= int(365.25 * float64(year))
+	month := int(float64(d) / 30.601)
+	d -= int(30.601 * float64(month))
+	day := d
+	if month > 13 {
+		month -= 13
+		year -= 4715
+	} else {
+		month -= 1
+		year -= 4716
 	}
 
 	return NewSolar(year, month, day, hour, minute, second)
